@@ -1,60 +1,8 @@
-(* Eco/All.v — string-level entry points of every modelled ecosystem, in the uniform shape
-   the driver, the VERS model and the CLI model consume. *)
-From Verif.Base Require Import Bytes GoNum Ord.
-From Verif.Eco Require Import RangeCore.
-From Verif.Eco.Cran Require Version Range.
-
-(* version layer, string level *)
-Record vops := {
-  v_show : bytes -> option bytes;                 (* Some (String()) iff NewVersion accepts *)
-  v_cmp : bytes -> bytes -> option comparison     (* Compare of the two parsed versions *)
-}.
-
-Definition mk_vops {T} (parse : bytes -> option T) (show : T -> bytes)
-  (cmp : T -> T -> comparison) : vops := {|
-  v_show := fun s => option_map show (parse s);
-  v_cmp := fun a b => match parse a, parse b with
-                      | Some x, Some y => Some (cmp x y)
-                      | _, _ => None
-                      end
-|}.
-
-(* range layer over a version layer given as an oracle on texts *)
-Record rops := {
-  r_show : (bytes -> bool) -> bytes -> option bytes;
-  r_contains : (bytes -> bool) -> (bytes -> bytes -> comparison) -> bytes -> bytes -> option bool
-}.
-
-Definition oracle_parse (vok : bytes -> bool) (s : bytes) : option bytes :=
-  if vok s then Some s else None.
-
-Definition mk_simple_rops (cfg : range_cfg) : rops := {|
-  r_show := fun vok s =>
-    option_map show (parse_range bytes (oracle_parse vok) cfg s);
-  r_contains := fun vok vcmp r v =>
-    match parse_range bytes (oracle_parse vok) cfg r with
-    | Some rg => if vok v then Some (contains bytes (oracle_parse vok) vcmp cfg rg v) else None
-    | None => None
-    end
-|}.
-
-Record eco := { e_name : bytes; e_v : vops; e_r : rops }.
-
-Definition cran_v := mk_vops Cran.Version.parse Cran.Version.show Cran.Version.cmp.
-Definition cran_r := mk_simple_rops Cran.Range.cfg.
+(* Eco/All.v — the registry of modelled ecosystems. *)
+From Verif.Base Require Import Bytes.
+From Verif.Eco Require Export Iface.
+From Verif.Eco.Cran Require Entry.
 
 Definition ecosystems : list eco := [
-  {| e_name := $"cran"; e_v := cran_v; e_r := cran_r |}
+  Cran.Entry.entry
 ].
-
-Fixpoint find_eco (name : bytes) (l : list eco) : option eco :=
-  match l with
-  | [] => None
-  | e :: r => if beq name (e_name e) then Some e else find_eco name r
-  end.
-
-(* the model's own version layer as an oracle (end-to-end use) *)
-Definition self_vok (e : eco) (s : bytes) : bool :=
-  match v_show (e_v e) s with Some _ => true | None => false end.
-Definition self_vcmp (e : eco) (a b : bytes) : comparison :=
-  match v_cmp (e_v e) a b with Some c => c | None => Eq end.
